@@ -56,3 +56,14 @@ claim("C01",
       "Trusted: rustc MIR and Instance::try_resolve; dependencies are leaves (their own recursion/totality assumed); fn-pointer and dyn "
       "calls are over-approximated by address-taken functions / all impls.",
       "DESIGN.md §2 C01")
+claim("C06",
+      "path-sensitive finiteness typestate over MIR (gates refine on branch edges) with interprocedural fixpoint",
+      "Decides the first sentence of C06 structurally: (R1) every f64 that becomes a Jsonnet number (all `ValueData::Number(x)` construction "
+      "sites of rsjsonnet-lang) is finite on every CFG path, by definition (finite literal, int->float, finite-preserving std call, payload of "
+      "an existing number, finite/non-zero-count quotient) or because a finiteness gate (check_number_value(x)?, is_finite, classify) dominates "
+      "it on that path; f64 parameters, State payload fields and Result/Option-wrapped returns are handled by an optimistic interprocedural "
+      "fixpoint. (R2) partial_cmp().unwrap() only sees number payloads. (R3) text->f64 only via <f64 as FromStr>, f64->text in manifest code "
+      "only via Display. Correct rounding and shortest round-trip are delegated to std and not decided.",
+      "Trusted: rustc MIR; std axioms listed in evidence (floor/ceil/trunc/round/abs/copysign/min/max/clamp preserve finiteness; frexp mantissa); "
+      "public constructor Value::number is the library boundary.",
+      "DESIGN.md §2 C06")
